@@ -3,6 +3,7 @@
 package mc
 
 import (
+	"fmt"
 	"strings"
 	"time"
 )
@@ -47,6 +48,31 @@ func Skeletons() []Skeleton {
 			"Propose(Payer,R1rep,warning,full)", "Vote(Tipper,support)", "Block(48h0m0.001s)", "Block(24h0m0.001s)",
 			"ClaimReward(R2)", "ClaimReward(Tipper)", "FeeRefund(Payer)", "FeeRefund(Payer,first)", b1,
 		}},
+		// two queries reported (and aggregated) in the same blocks, then the report on either of them disputed
+		{Name: "dispute-sibling", MintOn: false, Labels: []string{
+			"Tip(modeq,50)", "Submit(R1,cyc,std)", "Submit(R1,modeq,std)", "Submit(R2,cyc,std200)", "Submit(R2,modeq,std200)", b1, b1, b1, b1,
+			"Propose(Payer,R1rep,warning,full)", "Vote(Team,invalid)", b1, "Unjail(R1)", "Propose(Payer,R1lastrep,warning,full)", "Vote(Team,support)",
+			"Block(48h0m0.001s)", "Block(24h0m0.001s)", b1,
+		}},
+		// the reporter wins (stake and fee share are handed back to three backers) and the backing stake is not a whole
+		// number of tokens, so every proportional share carries a fraction
+		{Name: "dispute-against-odd", MintOn: false, Labels: []string{
+			"Delegate(R1,V1,800loya)", "Delegate(S1,V1,800loya)", "Delegate(S3,V2,400loya)", "Submit(R1,cyc,std)", "Submit(R2,cyc,std200)", b1, b1, b1,
+			"Propose(Payer,R1rep,warning,full)", "Vote(Team,against)", "Vote(R2,against)", "Block(48h0m0.001s)", "Block(24h0m0.001s)",
+			"FeeRefund(Payer)", "ClaimReward(Team)", "ClaimReward(R2)", b1,
+		}},
+		// four payers whose refund shares carry fractions that add up to more than one unit of dust
+		{Name: "dispute-dust", MintOn: false, Labels: []string{
+			"Submit(R1,cyc,std)", "Submit(R2,cyc,std200)", b1, b1, b1,
+			"Propose(Payer,R1rep,warning,half)", "AddFee(Tipper,last,1)", "AddFee(S1,last,1)", "AddFee(S3,last,3)", "AddFee(Payer,last,rest)",
+			"Vote(Team,invalid)", "Block(48h0m0.001s)", "Block(24h0m0.001s)",
+			"FeeRefund(Tipper)", "FeeRefund(S1)", "FeeRefund(S3)", "FeeRefund(Payer)", "ClaimReward(Team)", b1,
+		}},
+		// a deposit round that closes while the next one is being opened in the same block, next to a cycle-list round
+		{Name: "deposit-closing", MintOn: true, Deep: deepDepositOpen, Labels: []string{
+			b1, "Submit(R1,cyc,std)", "Submit(R2,cyc,std200)", b1, b1,
+			"Submit(R2,dep1,valid)", "Submit(R1,dep1,valid)", "Submit(R2,dep1,valid2)", b1, b1, b1, b1,
+		}},
 		{Name: "bridge", MintOn: true, Deep: deepDeposit, Labels: []string{
 			"Block(12h0m0s)", "ClaimDeposits(Payer,[1],[0])", "WithdrawTokens(Tipper,20b,1e6)", b1, "RequestAttest(eth,last)", b1,
 			"Delegate(Payer,V3,150)", b1, "WithdrawTokens(Tipper,20b,1)", b1,
@@ -76,6 +102,17 @@ func deepDeposit(w *World, c *Cast) {
 		panic("deepDeposit: no aggregate produced")
 	}
 }
+
+// deepDepositOpen leaves a deposit round (reported by R1 only) a few blocks before the end of its 2 000-block window.
+func deepDepositOpen(w *World, c *Cast) {
+	val := DepositValue(c.Payer.Acc.String(), bigMul(5_000_000, 1e12), bigMul(1_000, 1e12))
+	must(w, "dep R1", MsgSubmit(c.R1.Acc, c.Dep1, val))
+	for i := 0; i < depositOpenBlocks; i++ {
+		mustBlock(w, time.Second)
+	}
+}
+
+var depositOpenBlocks = 1997
 
 // BuildSkeleton instantiates a skeleton on a fresh world.
 func BuildSkeleton(s Skeleton) (*World, *Cast, []Event, func(*World) []Event) {
@@ -199,6 +236,12 @@ func ShowSkeletons(names []string) {
 			}
 		}
 		println("  aggregates:", len(cur.Aggregates()), "disputes:", len(cur.Disputes()), "supply:", cur.Supply().String())
+		for _, a := range cur.Aggregates() {
+			fmt.Printf("   aggregate q=%x.. height=%d micro=%d reporters=%d power=%d flagged=%v\n", a.QueryId[:4], a.Agg.Height, a.Agg.MicroHeight, len(a.Agg.Reporters), a.Agg.ReporterPower, a.Agg.Flagged)
+		}
+		for _, q := range cur.Queries() {
+			fmt.Printf("   open query q=%x.. id=%d exp=%d amount=%s reports=%v\n", q.QueryId[:4], q.Meta.Id, q.Meta.Expiration, q.Meta.Amount, q.Meta.HasRevealedReports)
+		}
 		for _, d := range cur.Disputes() {
 			println("   dispute", d.DisputeId, d.DisputeStatus.String(), "open", d.Open, "pending", d.PendingExecution, "fee", d.FeeTotal.String(), "slash", d.SlashAmount.String())
 		}
